@@ -1,14 +1,18 @@
 // corr_c14: correspondence + property oracle for C14 (traffic statistics).
 //
 // Engine "seq":  sequential operation sequences (Collect* for named users, the anonymous user and users
-//                first seen mid-run; Snapshot; SnapshotAndReset; GET …/stats[?clear…]; GET …/users/{u})
-//                on the real stats.Collector and the real api/ssm handlers (registered on an
-//                http.ServeMux exactly as api.Config.NewServer does), against the Lean model
-//                (SSV.Model.Stats through ssv_c14) and against the ledger oracle.
+//
+//	first seen mid-run; Snapshot; SnapshotAndReset; GET …/stats[?clear…]; GET …/users/{u})
+//	on the real stats.Collector and the real api/ssm handlers (registered on an
+//	http.ServeMux exactly as api.Config.NewServer does), against the Lean model
+//	(SSV.Model.Stats through ssv_c14) and against the ledger oracle.
+//
 // Engine "conc": concurrent hammer — collectors, snapshotters, resetting snapshotters and API GETs run
-//                concurrently; the conservation oracle checks Σ resetting snapshots + final snapshot ==
-//                Σ recorded, per counter, per user and for the server totals; the summed figures are also
-//                compared with the model's sequential run of the same collects.
+//
+//	concurrently; the conservation oracle checks Σ resetting snapshots + final snapshot ==
+//	Σ recorded, per counter, per user and for the server totals; the summed figures are also
+//	compared with the model's sequential run of the same collects.
+//
 // Probe F10:     GET /servers/{s}/users/{u} must show u's figures (directed witness of finding F10).
 package main
 
@@ -441,7 +445,8 @@ func main() {
 	rep.Engines = []string{"seq", "conc"}
 	rep.Rule = "engine seq: op sequences (Collect* with boundary values incl. 2^64-1 for named users, the anonymous user, users first seen mid-run; Snapshot; SnapshotAndReset; " +
 		"GET stats with 8 variants of the clear query; GET user for users with/without credential and with/without traffic) — impl vs Lean driver line by line, and vs the ledger oracle; " +
-		"non-trivial = an observation after traffic of at least 2 distinct users; distinct by (credentials, op sequence). " +
+		"non-trivial = an observation after traffic of at least 2 distinct users; distinct by (credentials, op sequence); the API requests go through the real api/ssm handlers on an http.ServeMux " +
+		"(patterns built as api.Config.NewServer builds them) and, for a smaller batch, through the real API server (api.Config.NewServer + Start) over a unix socket. " +
 		"engine conc: concurrent collectors/snapshotters/resetters/API readers; non-trivial = at least one resetting snapshot overlapped the recording; distinct by generated configuration"
 	err := run(o, rep)
 	cleanupTmp()
@@ -497,6 +502,19 @@ func run(o *common.Options, rep *common.Report) error {
 			return err
 		}
 	}
+	// the same kind of cases through the real API server (api.Config.NewServer, Start, HTTP over a unix socket)
+	realServer.Store(true)
+	cases = cases[:0]
+	rr := common.NewRng(o.Seed ^ 0xa91)
+	for i := 0; i < o.Budget(60, 1500); i++ {
+		cases = append(cases, genCase(rr.Fork(uint64(i)), 25))
+	}
+	err := evalSeq(cases, o, rep)
+	realServer.Store(false)
+	if err != nil {
+		return err
+	}
+	rep.Count(fmt.Sprintf("seq:cases-through-real-api-server=%d", len(cases)))
 	nc := o.Budget(200, 3000)
 	var cfgs []ConcCfg
 	rc := common.NewRng(o.Seed ^ 0xc14c14)
